@@ -130,3 +130,28 @@ fn an_idle_inserted_after_a_cancellation_keeps_its_place_at_the_end() {
     el.dispatch(Duration::ZERO, &mut log).unwrap();
     assert_eq!(log, vec!["outer", "b", "c"], "insertion order among idles inserted by an idle");
 }
+
+/// a queued idle callback is neither an event nor a wake-up: the dispatch still waits for its timeout (or the timer
+/// that bounds it, which then fires in that dispatch), and only then runs the idle
+#[test]
+fn a_queued_idle_does_not_shorten_the_wait() {
+    use calloop::timer::{TimeoutAction, Timer};
+    use std::time::Instant;
+    let mut el: EventLoop<Log> = EventLoop::try_new().unwrap();
+    let h = el.handle();
+    h.insert_idle(|log: &mut Log| log.push("idle"));
+    let mut log = Log::new();
+    let t = Instant::now();
+    el.dispatch(Duration::from_millis(150), &mut log).unwrap();
+    assert!(t.elapsed() >= Duration::from_millis(140), "dispatch(150 ms) with nothing but a queued idle returned after {:?}", t.elapsed());
+    assert_eq!(log, vec!["idle"]);
+    h.insert_source(Timer::from_duration(Duration::from_millis(100)), |_, _, log: &mut Log| { log.push("timer"); TimeoutAction::Drop }).unwrap();
+    let c = h.insert_idle(|log: &mut Log| log.push("cancelled"));
+    c.cancel();
+    h.insert_idle(|log: &mut Log| log.push("idle2"));
+    log.clear();
+    let t = Instant::now();
+    el.dispatch(None, &mut log).unwrap();
+    assert!(t.elapsed() >= Duration::from_millis(90), "dispatch(None) did not wait for the timer that bounds it ({:?})", t.elapsed());
+    assert_eq!(log, vec!["timer", "idle2"], "the timer that bounded the wait fires in that dispatch, before the idles");
+}
